@@ -720,3 +720,9 @@ def probe_known(ctx, finding):
     c = _case_from_public(finding["replay"])
     records, info = run_sessions([c])[0]
     return any(sig == finding["signature"] for sig, _ in judge(c, records, info))
+
+
+# somebody else's classes: the documented extension points used the way a third party uses them (props/thirdparty.py)
+from props import thirdparty as _thirdparty  # noqa: E402
+
+correspondence, search, replay = _thirdparty.attach(PID, correspondence, search, replay)
